@@ -682,6 +682,8 @@ inductive Cmd
   | zremRangeByRank (k : Bytes) (a b : Int) | zremRangeByScore (k : Bytes) (min max : F64) (mode : Int)
   | zunion (ks : List Bytes) (weights : List F64) (agg : Bytes)
   | zinter (ks : List Bytes) (weights : List F64) (agg : Bytes)
+  | zunionstore (dst : Bytes) (ks : List Bytes) (weights : List F64) (agg : Bytes)
+  | zinterstore (dst : Bytes) (ks : List Bytes) (weights : List F64) (agg : Bytes)
   -- further commands
   | incrByFloat (k : Bytes) (delta : F64) | hincrbyfloat (k f : Bytes) (delta : F64)
   | hmset (k : Bytes) (pairs : List (Bytes × Bytes))
@@ -740,6 +742,8 @@ def run (s : MState) (now : Int) : Cmd → MState × Out
   | .zremRangeByRank k a b => Api.zremRangeByRank s now k a b
   | .zremRangeByScore k mn mx md => Api.zremRangeByScore s now k mn mx md
   | .zunion ks w a => Api.zunion s now ks w a | .zinter ks w a => Api.zinter s now ks w a
+  | .zunionstore d ks w a => Api.zstore true s now d ks w a
+  | .zinterstore d ks w a => Api.zstore false s now d ks w a
   | .incrByFloat k d => Api.incrByFloat s now k d | .hincrbyfloat k f d => Api.hincrbyfloat s now k f d
   | .hmset k ps => Api.hmset s now k ps
   | .spop k c ch => Api.spop s now k c ch | .srandmember k c ch => Api.srandmember s now k c ch
@@ -842,6 +846,8 @@ theorem run_resp (now : Int) (c : Cmd) : Resp now (fun s => run s now c) := by
   | zremRangeByScore k mn mx md => exact resp_zremRangeByScore now k mn mx md
   | zunion ks w a => exact resp_zunion now ks w a
   | zinter ks w a => exact resp_zinter now ks w a
+  | zunionstore d ks w a => exact resp_zstore now true d ks w a
+  | zinterstore d ks w a => exact resp_zstore now false d ks w a
   | incrByFloat k d => exact resp_incrByFloat now k d
   | hincrbyfloat k f d => exact resp_hincrbyfloat now k f d
   | hmset k ps => exact resp_hmset now k ps
@@ -1041,6 +1047,28 @@ theorem expired_invisible_zscore (s : MState) (now : Int) (k m : Bytes) (hs : AL
     Sim now (Api.zscore s now k m).1 (Api.zscore (purge now s) now k m).1 :=
   invisible_of_resp (resp_zread now k _ _) s hs
 
+/-- ZUNIONSTORE (`union = true`) / ZINTERSTORE: after the repair of `ZUnionStore`/`ZInterStore` (result
+    computed before the destination is looked up) an expired destination that is still indexed — also
+    one that is among the operands — is invisible to them too -/
+theorem expired_invisible_zstore (union : Bool) (s : MState) (now : Int) (dst : Bytes) (ks : List Bytes)
+    (w : List F64) (agg : Bytes) (hs : AList.Sorted s.index) :
+    (Api.zstore union s now dst ks w agg).2 = (Api.zstore union (purge now s) now dst ks w agg).2 ∧
+    Sim now (Api.zstore union s now dst ks w agg).1 (Api.zstore union (purge now s) now dst ks w agg).1 :=
+  invisible_of_resp (resp_zstore now union dst ks w agg) s hs
+/-- ZADD LT / GT (they no longer create the key) -/
+theorem expired_invisible_zaddLT (s : MState) (now : Int) (k m : Bytes) (sc : F64) (hs : AList.Sorted s.index) :
+    (Api.zaddLT s now k m sc).2 = (Api.zaddLT (purge now s) now k m sc).2 ∧
+    Sim now (Api.zaddLT s now k m sc).1 (Api.zaddLT (purge now s) now k m sc).1 :=
+  invisible_of_resp (resp_zaddCmp now k DsZSet.zAddLT m sc) s hs
+theorem expired_invisible_zaddGT (s : MState) (now : Int) (k m : Bytes) (sc : F64) (hs : AList.Sorted s.index) :
+    (Api.zaddGT s now k m sc).2 = (Api.zaddGT (purge now s) now k m sc).2 ∧
+    Sim now (Api.zaddGT s now k m sc).1 (Api.zaddGT (purge now s) now k m sc).1 :=
+  invisible_of_resp (resp_zaddCmp now k DsZSet.zAddGT m sc) s hs
+/-- ZADD LT/GT on a key with no visible record (absent or expired): reply 0 -/
+theorem zaddCmp_absent (f : ZSet → Bytes → F64 → ZSet × Bool) (s : MState) (now : Int) (k m : Bytes) (sc : F64)
+    (h : live s now k = none) (hs : AList.Sorted s.index) : (Api.zaddCmp f s now k m sc).2 = .int 0 := by
+  rw [zaddCmp_eq]; exact writeCmd_absent h hs _ _
+
 /-! ### what the replies are on a key with no visible record (absent or expired) -/
 
 theorem get_absent (s : MState) (now : Int) (k : Bytes) (h : live s now k = none) (hs : AList.Sorted s.index) :
@@ -1204,22 +1232,6 @@ theorem expired_invisible_scan_finding :
   simp only [Out.many.injEq, List.cons.injEq, Out.int.injEq] at h
   exact absurd h.1 (by decide)
 
-open Proofs.C10.Ex in
-/-- FINDING 4. An expired record that is still indexed is *locked* by the lookups (`Sim` does not
-    compare `held`/`hung`): ZINTERSTORE a 1 a with "a" expired-but-indexed read-locks the dead record
-    and then asks for its write lock — the call never returns — whereas on the purged state it
-    completes. -/
-theorem expired_record_locks_finding :
-    (Api.zstore false zSt 1000 kA [kA] [] []).1.hung = true ∧
-    (Api.zstore false (purge 1000 zSt) 1000 kA [kA] [] []).1.hung = false := ⟨rfl, rfl⟩
-
-open Proofs.C10.Ex in
-/-- FINDING 5. ZUNIONSTORE a 1 a with "a" expired-but-indexed hangs (`Out.hang`: the destination
-    "existed"), on the purged state it answers 0. -/
-theorem zunionstore_expired_dst_finding :
-    (Api.zstore true zSt 1000 kA [kA] [] []).2 = .hang ∧
-    (Api.zstore true (purge 1000 zSt) 1000 kA [kA] [] []).2 = .int 0 := ⟨rfl, rfl⟩
-
 /-! ## Non-vacuity: concrete values satisfying each hypothesis set -/
 section examples
 open Proofs.C10.Ex
@@ -1270,6 +1282,14 @@ example : getMeta st kC = some mC ∧ mC.isOk = true ∧ mC.exp = 0 := ⟨rfl, r
 example : (∃ m old, LiveWith st 1000 kA m (Api.strVal old)) ∨ live st 1000 kA = none :=
   Or.inl ⟨mA, some [1], rfl, Or.inl rfl⟩
 example : (∃ m old, LiveWith st 1000 kB m (Api.strVal old)) ∨ live st 1000 kB = none := Or.inr rfl
+/-- `expired_invisible_zstore` on the former witnesses (destination expired, still indexed, and an operand):
+    since the repair neither form hangs or self-deadlocks, and both answer as on the purged state -/
+example : AList.Sorted zSt.index ∧
+    (Api.zstore true zSt 1000 kA [kA] [] []).2 = .int 0 ∧
+    (Api.zstore true (purge 1000 zSt) 1000 kA [kA] [] []).2 = .int 0 ∧
+    (Api.zstore false zSt 1000 kA [kA] [] []).1.hung = false ∧
+    (Api.zstore false zSt 1000 kA [kA] [] []).2 = (Api.zstore false (purge 1000 zSt) 1000 kA [kA] [] []).2 :=
+  ⟨trivial, rfl, rfl, rfl, rfl⟩
 /-- the concrete replies: the live key is seen with its full value, the expired one by no command -/
 example : (Api.get st 1000 kA).2 = .bytes (some [1]) ∧ (Api.get st 1000 kB).2 = .bytes none ∧
     (Api.exists_ st 1000 [kA, kB, kC]).2 = .int 2 ∧ (Api.keys st 1000 [42]).2 = .slist [kA, kC] ∧
@@ -1283,13 +1303,10 @@ end examples
 
    * SCAN is not in `Cmd`: the full "expired-invisible" statement is FALSE for it
      (`expired_invisible_scan_finding`); what is proved is `scan_never_returns_expired`.
-   * ZUNIONSTORE / ZINTERSTORE (`Api.zstore`) are not in `Cmd`: the statement is FALSE when the
-     destination is an expired-but-indexed record that is also an operand
-     (`zunionstore_expired_dst_finding`, `expired_record_locks_finding`). A partial statement (destination
-     not among the operands) is not proved.
    * `Sim` does not compare `held` / `hung` (locks of the running call): an expired record that is still
-     indexed *is* locked by lookups, an absent one is not. Apart from `Api.zstore` no covered command's
-     reply depends on it, but the lock state of the two runs differs.
+     indexed *is* locked by lookups, an absent one is not. No covered command's reply depends on it
+     (since the repair of ZUNIONSTORE / ZINTERSTORE, which are now in `Cmd`), but the lock state of the
+     two runs differs; that no call deadlocks on an expired record is not stated here.
    * `Sim` compares the backend only through `load` of unexpired cold records; `stored` and stale backend
      entries are not compared (see Spec/Expire.lean). Consequently nothing is claimed here about what a
      later flush / reopen sees (that is the persistence properties' business).
